@@ -40,6 +40,14 @@ func main() {
 		os.Exit(2)
 	}
 	prop := os.Args[1]
+	if prop == "custom-agent" {
+		agentMain()
+		return
+	}
+	if prop == "ssh-server" {
+		sshServerMain()
+		return
+	}
 	if prop == "tqchild" {
 		tqChildMain(os.Args[2])
 		return
